@@ -36,6 +36,9 @@ class Check(PropertyCheck):
 
     def generate(self, rng, n, tier):
         for i in range(n):
+            if i == 3:
+                yield Scenario(["new", f"mark float32 {rng.randint(0, 10**6)}"], {"family": "float32", "accepted": 3, "kind": "solve", "ops": 6})
+                continue
             if i % 25 == 17:
                 yield Scenario(["new", f"mark gcloop {rng.randint(0, 10**6)}"], {"family": "gcloop", "accepted": 3, "kind": "solve", "ops": 6})
                 continue
@@ -222,6 +225,22 @@ class Check(PropertyCheck):
     def oracle(self, impl, scenario, index, line, out, ctx):
         res = []
         ts = line.split()
+        if line.startswith("mark float32"):
+            # job work sums beyond 2**24: the observer-based rule reads float32 features, the direct rule adds up integers
+            import jsl
+            from impl import build_instance
+            from job_shop_lib.dispatching.rules import most_work_remaining_rule, observer_based_most_work_remaining_rule
+            r = random.Random(int(line.split()[2]))
+            base = 2 ** r.choice([24, 25])
+            jobs = [[([0], base)], [([1], base + 1)]]
+            inst = build_instance(jobs)
+            d = jsl.Dispatcher(inst)
+            a, b = most_work_remaining_rule(d), observer_based_most_work_remaining_rule(d)
+            if a.operation_id != b.operation_id:
+                return [("mwkr-float32", f"instance {jobs}: the direct most-work-remaining rule selects operation {a.operation_id} (job work "
+                         f"{base + 1} > {base}), the observer-based rule selects operation {b.operation_id} (both are {float(base)} in float32: "
+                         f"the first one wins)")]
+            return []
         if line.startswith("mark gcloop"):
             return self.gc_loop_oracle(int(ts[2]))
         if ts[0] == "rule":
